@@ -101,6 +101,7 @@ func walk[S, T any](ctx context.Context, g *graph[S], t *traversal[S, T]) error 
 			case <-ctx.Done():
 				return nil
 			case node := <-nodeCh:
+				verifYield("receive", node.key)
 				expect--
 				if expect == 0 {
 					return nil
@@ -135,6 +136,7 @@ func (t *traversal[S, T]) visit(ctx context.Context, eg *errgroup.Group, node *v
 			err    error
 			result T
 		)
+		verifYield("spawned", node.key)
 		if !t.skip(node) {
 			result, err = t.visitor(ctx, node.key, *node.service)
 		}
@@ -159,6 +161,7 @@ func (t *traversal[S, T]) adjacentNodes(v *vertex[S]) map[string]*vertex[S] {
 }
 
 func (t *traversal[S, T]) ready(v *vertex[S]) bool {
+	verifYield("ready", v.key)
 	t.mu.Lock()
 	defer t.mu.Unlock()
 
@@ -175,6 +178,7 @@ func (t *traversal[S, T]) ready(v *vertex[S]) bool {
 }
 
 func (t *traversal[S, T]) enter(v *vertex[S]) bool {
+	verifYield("enter", v.key)
 	t.mu.Lock()
 	defer t.mu.Unlock()
 
@@ -186,6 +190,7 @@ func (t *traversal[S, T]) enter(v *vertex[S]) bool {
 }
 
 func (t *traversal[S, T]) done(v *vertex[S], result T) {
+	verifYield("done", v.key)
 	t.mu.Lock()
 	defer t.mu.Unlock()
 	t.status[v.key] = vertexVisited
